@@ -247,6 +247,7 @@ theorem step_files (env : Env) (fs fs' : FS) (c : Call) (r : Ret) (h : Prog.Step
         · exact Or.inl hq
     case now => exact Or.inl hq
     case isLink p => split at hq <;> exact Or.inl hq
+    case sameFile p t => split at hq <;> exact Or.inl hq
     case mkTempLink dir t =>
       split at hq
       · rcases key _ _ _ hq with h | h
@@ -493,6 +494,7 @@ theorem step_frame (env : Env) (fs fs' : FS) (c : Call) (r : Ret) (h : Step env 
         · exact hq (FS.below_prefix fs p q m')
       · exact FS.get_del_ne _ (fun e => hq (e ▸ List.prefix_refl _))
     case isLink p => split <;> rfl
+    case sameFile p t => split <;> rfl
     case mkTempLink dir t => split <;> first | rfl | exact FS.get_put_ne _ _ hq
 
 end Cacache
